@@ -1,6 +1,7 @@
 package props
 
 import (
+	"bytes"
 	"crypto/ecdsa"
 	"crypto/ed25519"
 	"crypto/rsa"
@@ -234,6 +235,17 @@ func c18Build(c *c18Case) (shared []any, ops []c18Op, err error) {
 			}
 		}
 	}
+	if c.KeyIdx >= 0 && c.KeyIdx%3 == 1 {
+		// the coordinates are windows of one larger buffer of the caller (an uncompressed point 04 || X || Y with
+		// the leading zero octets trimmed): there is spare capacity - and the caller's next bytes - behind them
+		for _, l := range []int64{cose.KeyLabelEC2X, cose.KeyLabelEC2Y} {
+			if b, ok := key.Params[l].([]byte); ok {
+				buf := append(append(make([]byte, 0, len(b)+24), b...), bytes.Repeat([]byte{0xc5}, 24)...)
+				key.Params[l] = buf[:len(b)]
+			}
+		}
+		stats.Class("key/coordinates-with-spare-capacity")
+	}
 	if (c.KeyIdx+3)%3 != 2 {
 		// optional members, key_ops with a repeated entry and spare capacity behind it
 		kops := make([]cose.KeyOp, 0, 8)
@@ -290,6 +302,21 @@ func c18Build(c *c18Case) (shared []any, ops []c18Op, err error) {
 		id := ctr.n
 		ctr.Unlock()
 		msg := &cose.Sign1Message{Headers: cose.Headers{Protected: cose.ProtectedHeader{int64(1): cose.Algorithm(sk.Alg)}}, Payload: []byte(fmt.Sprintf("distinct message %d", id))}
+		if e := msg.Sign(refcose.NewEntropy([]byte{byte(id)}), nil, sg); e != nil {
+			return errStr(e)
+		}
+		return errStr(msg.Verify(nil, sv))
+	}})
+	// ... distinct messages that share one prepared protected-header map which already names the algorithm (Sign has
+	// nothing to add to it: it only reads it)
+	sharedHdr := cose.ProtectedHeader{int64(1): cose.Algorithm(sk.Alg), int64(3): "text/plain"}
+	shared = append(shared, sharedHdr)
+	ops = append(ops, c18Op{"Sign/shared-signer/shared-header-map", func() string {
+		ctr.Lock()
+		ctr.n++
+		id := ctr.n
+		ctr.Unlock()
+		msg := &cose.Sign1Message{Headers: cose.Headers{Protected: sharedHdr}, Payload: []byte(fmt.Sprintf("distinct message %d", id))}
 		if e := msg.Sign(refcose.NewEntropy([]byte{byte(id)}), nil, sg); e != nil {
 			return errStr(e)
 		}
